@@ -14,6 +14,34 @@ def main():
     a = ap.parse_args()
     pid = a.pid.upper()
     seed = int(os.environ.get('VERIF_SEED', '0') or 0)
+    if os.environ.get('VERIF_WORKER') != '1':
+        # The check itself runs in a worker process: a compiled kernel that corrupts memory can kill the interpreter, and a
+        # crash of the library on valid inputs must be reported as a violation of the property under test, not as silence.
+        import json
+        import signal
+        import subprocess
+        import time
+        t0 = time.time()
+        p = subprocess.run([sys.executable, '-u', os.path.abspath(__file__)] + sys.argv[1:], env=dict(os.environ, VERIF_WORKER='1'))
+        rc = p.returncode
+        if rc < 0 or rc in (134, 139):
+            sig = -rc if rc < 0 else rc - 128
+            try:
+                name = signal.Signals(sig).name
+            except Exception:
+                name = str(sig)
+            root = os.path.dirname(os.path.dirname(os.path.abspath(__file__)))
+            os.makedirs(os.path.join(root, 'replays', pid), exist_ok=True)
+            rp = os.path.join(root, 'replays', pid, f'crash-{name}.json')
+            json.dump(dict(property=pid, key=f'crash-{name}', what=f'the interpreter was killed by {name} while the check was executing the library on valid inputs',
+                           payload=dict(tier=a.tier, seed=seed)), open(rp, 'w'), indent=1)
+            json.dump(dict(property_id=pid, tier=a.tier, seed=seed, level='other',
+                           coverage=dict(explanation=f'worker process killed by {name}: no coverage recorded', evaluations=1, distinct_nontrivial=0, samples=[f'crash-{name}']),
+                           assumptions=[], wall_s=round(time.time() - t0, 2), violations=1), open(os.path.join(root, 'evidence', f'{pid}.json'), 'w'), indent=1)
+            print(f'DETAIL property={pid} key=crash-{name} :: interpreter killed by {name} while executing the library (memory corruption by a compiled kernel)')
+            print(f'VIOLATION property={pid} replay={rp}')
+            sys.exit(1)
+        sys.exit(rc)
     try:
         mod = importlib.import_module(pid.lower())
     except ModuleNotFoundError as e:
